@@ -144,11 +144,9 @@
     #[kani::unwind(22)]
     //@ERR
     #[kani::stub(LZIPReaderMT::spawn_worker_thread, spawn_stub)]
-    #[kani::stub(std::io::error::Error::new, io_err_new_stub)]
     fn c08_lzip_scan_n26() { lzip_scan::<26>(); }
     #[kani::proof]
     #[kani::unwind(22)]
     //@ERR
     #[kani::stub(LZIPReaderMT::spawn_worker_thread, spawn_stub)]
-    #[kani::stub(std::io::error::Error::new, io_err_new_stub)]
     fn c08_lzip_scan_n30() { lzip_scan::<30>(); }
